@@ -22,6 +22,7 @@ theorem, footprint_in_bounds of the iovec walks, the bit⇔item part of table_in
 -/
 import Wz.Proofs.C15_PollLoop
 import Wz.Proofs.C15_Table
+import Wz.Proofs.C15_Fs2W
 
 namespace Wz.C15
 open Wz.Model Wz.Model.Wasi Wz.Model.DescTable Wz.Gen.Wasi
@@ -235,5 +236,217 @@ theorem insertAt_slots {α} (t : Table α) (x : α) (k : Int) (hk : 0 ≤ k) (h 
 theorem renumber_alloc_witness {α} (x : α) : slots (insertAt (empty : Table α) x 2147483647).1 = 2147483648 := by
   rw [slots_insertAt _ _ _ (by decide) shape_empty]
   simp [slots, empty]
+
+/-! ## the remaining 24 functions (`Wz.Model.WasiFs2`): fd_readdir, path_*, fd_*set*, fd_allocate/advise/sync, sock_*,
+proc_raise
+
+A call is answered by a list of alternatives (the host file system / the network selects one); every statement
+below holds for EVERY alternative, for every argument tuple (any naturals: the dispatcher reduces them to 32 / 64
+bits as the ABI does), every memory image, every descriptor table and every host configuration. -/
+
+/-- one constructor of `Fn2`: destructure the argument list and apply the function's lemma -/
+macro "fs2_case" hc:ident t:term : tactic =>
+  `(tactic| (simp only [call2e] at $hc:ident; split at $hc:ident <;>
+      first | (cases $hc:ident; done) | (simp only [Option.some.injEq] at $hc:ident; subst $hc:ident; exact $t)))
+
+theorem w32_lt (x : Nat) : w32 x < 4294967296 := by unfold w32; omega
+
+/-- `Fn2` enumerates exactly the names in `modelled2`, and the by-name dispatcher / region table agree with the
+enumerated ones. -/
+theorem fn2_names : Fn2.all.map Fn2.name = modelled2 := rfl
+
+theorem call2_by_name (fixedRecv : Bool) (h : Host) (fds : Fds) (m : Mem) (f : Fn2) (a : List Nat) :
+    call2 fixedRecv h fds m f.name a = call2e fixedRecv h fds m f a := by cases f <;> rfl
+
+theorem designated_by_name (h : Host) (m : Mem) (f : Fn2) (a : List Nat) :
+    designated h m f.name a = designated2e m f a := by
+  cases f <;> simp [designated, Fn2.all, Fn2.name]
+
+/-- All of `Safe` at once, for both variants of sock_recv (the F61 defect is about WHERE it writes, not about
+host safety): no alternative is a host panic, every write lies inside the memory, an alternative that does not
+answer errno 0 leaves the descriptor table untouched, and the predicted host allocation is ≤ 512 bytes. -/
+theorem wasi_call_safe (fixedRecv : Bool) (h : Host) (hh : HostNamesOk h) (fds : Fds) (m : Mem) (hb : Bytes m)
+    (hs : m.size < 9223372036854775808) (f : Fn2) (a : List Nat) (rs : List Res)
+    (hc : call2e fixedRecv h fds m f a = some rs) : ∀ r ∈ rs, Safe m r := by
+  cases f
+  case fd_readdir => fs2_case hc (fdReaddir_safe h hh m fds _ _ _ _ _ (w32_lt _) (w32_lt _) (w32_lt _) hs)
+  case path_open => fs2_case hc (pathOpen_safe m fds _ _ _ _ _ (w32_lt _) hs)
+  case path_filestat_get => fs2_case hc (pathFilestatGet_safe m fds _ _ _ _ (w32_lt _) hs)
+  case path_readlink => fs2_case hc (pathReadlink_safe m fds _ _ _ _ _ _ (w32_lt _) hs)
+  case fd_fdstat_set_flags => fs2_case hc (fdFdstatSetFlags_safe m fds _ _)
+  case fd_filestat_set_size => fs2_case hc (fdFilestatSetSize_safe m fds _)
+  case fd_filestat_set_times => fs2_case hc (fdFilestatSetTimes_safe m fds _ _)
+  case path_filestat_set_times => fs2_case hc (pathFilestatSetTimes_safe m fds _ _ _ _)
+  case fd_allocate => fs2_case hc (fdAllocate_safe m fds _ _ _)
+  case fd_advise => fs2_case hc (fdAdvise_safe m fds _ _)
+  case fd_datasync => fs2_case hc (fdSyncLike_safe m fds _)
+  case fd_sync => fs2_case hc (fdSyncLike_safe m fds _)
+  case fd_fdstat_set_rights => fs2_case hc (allSafe_rE m enosys (by decide))
+  case path_create_directory => fs2_case hc (pathOp_safe m fds _ _ _)
+  case path_remove_directory => fs2_case hc (pathOp_safe m fds _ _ _)
+  case path_unlink_file => fs2_case hc (pathOp_safe m fds _ _ _)
+  case path_rename => fs2_case hc (pathOp2_safe m fds _ _ _ _ _ _)
+  case path_symlink => fs2_case hc (pathSymlink_safe m fds _ _ _ _ _)
+  case path_link => fs2_case hc (pathOp2_safe m fds _ _ _ _ _ _)
+  case sock_accept => fs2_case hc (sockAccept_safe m fds _ _ (w32_lt _) hs)
+  case sock_recv => fs2_case hc (sockRecv_safe _ m hb fds _ _ _ _ _ _ (w32_lt _) (w32_lt _) hs)
+  case sock_send => fs2_case hc (sockSend_safe m fds _ _ _ _ _ (w32_lt _) hs)
+  case sock_shutdown => fs2_case hc (sockShutdown_safe m fds _ _)
+  case proc_raise => fs2_case hc (allSafe_rE m enosys (by decide))
+
+/-- one constructor of `Fn2`, for the region statement -/
+macro "fs2_wcase" hc:ident t:term : tactic =>
+  `(tactic| (simp only [call2e] at $hc:ident; split at $hc:ident <;>
+      first | (cases $hc:ident; done)
+            | (simp only [Option.some.injEq] at $hc:ident; subst $hc:ident
+               simp only [designated2e, List.map]; exact $t)))
+
+/-- writes_within_designated, repaired variant of sock_recv: every write of every alternative lies inside the
+regions the signature designates (`designated`, the table the harness monitor uses, compared with spec.go on every
+generated case).  `m.size ≤ 2^32` is the wasm32 limit. -/
+theorem wasi_writes_within_designated (h : Host) (hh : HostNamesOk h) (fds : Fds) (m : Mem)
+    (hm : m.size ≤ 4294967296) (f : Fn2) (a : List Nat) (rs : List Res)
+    (hc : call2e true h fds m f a = some rs) :
+    ∀ r ∈ rs, ∀ w ∈ r.writes, Wr.within w (designated2e m f (a.map w32)) := by
+  show Within rs _
+  cases f
+  case fd_readdir => fs2_wcase hc (fdReaddir_within h hh fds m _ _ _ _ _ (w32_lt _))
+  case path_open => fs2_wcase hc (pathOpen_within fds m _ _ _ _ _)
+  case path_filestat_get => fs2_wcase hc (pathFilestatGet_within fds m _ _ _ _)
+  case path_readlink => fs2_wcase hc (pathReadlink_within fds m _ _ _ _ _ _)
+  case fd_fdstat_set_flags => fs2_wcase hc (fdFdstatSetFlags_within fds _ _ _)
+  case fd_filestat_set_size => fs2_wcase hc (fdFilestatSetSize_within fds _ _)
+  case fd_filestat_set_times => fs2_wcase hc (fdFilestatSetTimes_within fds _ _ _)
+  case path_filestat_set_times => fs2_wcase hc (pathFilestatSetTimes_within fds m _ _ _ _ _)
+  case fd_allocate => fs2_wcase hc (fdAllocate_within fds _ _ _ _)
+  case fd_advise => fs2_wcase hc (fdAdvise_within fds _ _ _)
+  case fd_datasync => fs2_wcase hc (fdSyncLike_within fds _ _)
+  case fd_sync => fs2_wcase hc (fdSyncLike_within fds _ _)
+  case fd_fdstat_set_rights => fs2_wcase hc (within_rE _ _)
+  case path_create_directory => fs2_wcase hc (pathOp_within fds m _ _ _ _)
+  case path_remove_directory => fs2_wcase hc (pathOp_within fds m _ _ _ _)
+  case path_unlink_file => fs2_wcase hc (pathOp_within fds m _ _ _ _)
+  case path_rename => fs2_wcase hc (pathOp2_within fds m _ _ _ _ _ _ _)
+  case path_symlink => fs2_wcase hc (pathSymlink_within fds m _ _ _ _ _ _)
+  case path_link => fs2_wcase hc (pathOp2_within fds m _ _ _ _ _ _ _)
+  case sock_accept => fs2_wcase hc (sockAccept_within fds m _ _)
+  case sock_recv => fs2_wcase hc (sockRecv_within fds m _ _ _ _ _ _ (w32_lt _) hm)
+  case sock_send => fs2_wcase hc (sockSend_within fds m _ _ _ _ _)
+  case sock_shutdown => fs2_wcase hc (sockShutdown_within fds _ _ _)
+  case proc_raise => fs2_wcase hc (within_rE _ _)
+
+/-! ### the same statements by function name, through the dispatcher `call` of all 46 functions -/
+
+theorem modelled2_enumerated (fn : String) (hfn : fn ∈ modelled2) : ∃ f : Fn2, f.name = fn := by
+  unfold modelled2 at hfn
+  obtain ⟨f, _, hf⟩ := List.mem_map.1 hfn
+  exact ⟨f, hf⟩
+
+theorem call_by_name (fixed fixedRecv : Bool) (h : Host) (fds : Fds) (m : Mem) (f : Fn2) (a : List Nat) :
+    call fixed fixedRecv h fds m f.name a = call2e fixedRecv h fds m f a := by
+  have h1 : call1 fixed h fds m f.name a = none := by cases f <;> simp [call1, Fn2.name]
+  unfold call
+  rw [h1, call2_by_name]
+
+/-- no_host_index_oob for every function of `modelled2`: no alternative is a Go runtime error. -/
+theorem wasi_no_host_panic (fixed fixedRecv : Bool) (h : Host) (hh : HostNamesOk h) (fds : Fds) (m : Mem)
+    (hb : Bytes m) (hs : m.size < 9223372036854775808) (fn : String) (hfn : fn ∈ modelled2) (a : List Nat)
+    (rs : List Res) (hc : call fixed fixedRecv h fds m fn a = some rs) : ∀ r ∈ rs, r.err ≠ Err.panic := by
+  obtain ⟨f, rfl⟩ := modelled2_enumerated fn hfn
+  rw [call_by_name] at hc
+  exact fun r hr => (wasi_call_safe fixedRecv h hh fds m hb hs f a rs hc r hr).noPanic
+
+/-- writes never extend beyond the memory. -/
+theorem wasi_writes_in_memory (fixed fixedRecv : Bool) (h : Host) (hh : HostNamesOk h) (fds : Fds) (m : Mem)
+    (hb : Bytes m) (hs : m.size < 9223372036854775808) (fn : String) (hfn : fn ∈ modelled2) (a : List Nat)
+    (rs : List Res) (hc : call fixed fixedRecv h fds m fn a = some rs) :
+    ∀ r ∈ rs, ∀ w ∈ r.writes, w.len = 0 ∨ w.off + w.len ≤ m.size := by
+  obtain ⟨f, rfl⟩ := modelled2_enumerated fn hfn
+  rw [call_by_name] at hc
+  exact fun r hr => (wasi_call_safe fixedRecv h hh fds m hb hs f a rs hc r hr).inMem
+
+/-- a call that does not answer errno 0 (an errno, or "any"/"nz" of the host) leaves the descriptor table as it
+was; no exception among these 24 functions (path_open that fails with EFAULT inserts and closes the new
+descriptor again: the entries are the same). -/
+theorem wasi_failed_call_keeps_table (fixed fixedRecv : Bool) (h : Host) (hh : HostNamesOk h) (fds : Fds) (m : Mem)
+    (hb : Bytes m) (hs : m.size < 9223372036854775808) (fn : String) (hfn : fn ∈ modelled2) (a : List Nat)
+    (rs : List Res) (hc : call fixed fixedRecv h fds m fn a = some rs) :
+    ∀ r ∈ rs, r.err ≠ Err.errno 0 → r.fds = none := by
+  obtain ⟨f, rfl⟩ := modelled2_enumerated fn hfn
+  rw [call_by_name] at hc
+  exact fun r hr => (wasi_call_safe fixedRecv h hh fds m hb hs f a rs hc r hr).table
+
+/-- the host allocation the model predicts is bounded by a linear function of the guest memory size (here even a
+constant: one growth step of the descriptor table, 64 slots of 8 bytes). -/
+theorem wasi_alloc_bounded (fixed fixedRecv : Bool) (h : Host) (hh : HostNamesOk h) (fds : Fds) (m : Mem)
+    (hb : Bytes m) (hs : m.size < 9223372036854775808) (fn : String) (hfn : fn ∈ modelled2) (a : List Nat)
+    (rs : List Res) (hc : call fixed fixedRecv h fds m fn a = some rs) : ∀ r ∈ rs, r.alloc ≤ 512 + 0 * m.size := by
+  obtain ⟨f, rfl⟩ := modelled2_enumerated fn hfn
+  rw [call_by_name] at hc
+  intro r hr
+  have := (wasi_call_safe fixedRecv h hh fds m hb hs f a rs hc r hr).alloc
+  omega
+
+/-- writes_within_designated by name (repaired sock_recv). -/
+theorem wasi_writes_within_designated_by_name (fixed : Bool) (h : Host) (hh : HostNamesOk h) (fds : Fds) (m : Mem)
+    (hm : m.size ≤ 4294967296) (fn : String) (hfn : fn ∈ modelled2) (a : List Nat) (rs : List Res)
+    (hc : call fixed true h fds m fn a = some rs) :
+    ∀ r ∈ rs, ∀ w ∈ r.writes, Wr.within w (designated h m fn (a.map w32)) := by
+  obtain ⟨f, rfl⟩ := modelled2_enumerated fn hfn
+  rw [call_by_name] at hc
+  rw [designated_by_name]
+  exact wasi_writes_within_designated h hh fds m hm f a rs hc
+
+/-! ### F61 and non-vacuity -/
+
+/-- an accepted connection at 4 besides stdio -/
+def connFds : Fds := (insertAt stdio Kind.conn 4).1
+/-- a memory whose first iovec names the 16 bytes at 256 -/
+def iovPage : Mem := { size := 65536, data := #[0, 1, 0, 0, 16, 0, 0, 0] }
+
+/-- F61: on the pinned tree sock_recv with RI_RECV_PEEK and ri_data_len = 0 has an alternative (data is waiting)
+that writes the 16 bytes at 256 named by the bytes at ri_data — outside the designated regions, which for
+ri_data_len = 0 are only the two result cells. -/
+theorem sockRecv_peek_witness :
+    ∃ r ∈ sockRecv false connFds iovPage 4 0 0 1 16640 16704, ∃ w ∈ r.writes,
+      ¬ Wr.within w (designated2e iovPage Fn2.sock_recv [4, 0, 0, 1, 16640, 16704]) := by
+  have hmap : (sockRecv false connFds iovPage 4 0 0 1 16640 16704).map (·.writes) =
+      [[], [Wr.region 256 16, Wr.region 16640 4, Wr.bytes 16704 [0, 0]]] := by decide
+  have hin : [Wr.region 256 16, Wr.region 16640 4, Wr.bytes 16704 [0, 0]] ∈
+      (sockRecv false connFds iovPage 4 0 0 1 16640 16704).map (·.writes) := by rw [hmap]; simp
+  obtain ⟨r, hr, hrw⟩ := List.mem_map.1 hin
+  refine ⟨r, hr, Wr.region 256 16, by rw [hrw]; simp, ?_⟩
+  intro hw
+  obtain ⟨r, hr, h1, h2⟩ := hw 256 (by decide) (by decide)
+  simp only [designated2e, iovRegions, List.nil_append, List.mem_cons, List.not_mem_nil, or_false] at hr
+  rcases hr with rfl | rfl
+  · simp at h1
+  · simp at h1
+
+/-- the repaired variant answers ro_datalen = 0 and writes nothing else (test, sample) -/
+example : (sockRecv true connFds iovPage 4 0 0 1 16640 16704).map (·.writes) =
+    [[Wr.bytes 16640 [0, 0, 0, 0], Wr.bytes 16704 [0, 0]]] := by decide
+
+/-- the hypotheses are met by ordinary states: a memory of bytes, a host with short names -/
+example : Bytes iovPage := by
+  intro a
+  unfold Mem.get iovPage
+  by_cases h : a < 8
+  · have : a = 0 ∨ a = 1 ∨ a = 2 ∨ a = 3 ∨ a = 4 ∨ a = 5 ∨ a = 6 ∨ a = 7 := by omega
+    rcases this with rfl | rfl | rfl | rfl | rfl | rfl | rfl | rfl <;> decide
+  · simp [Array.getD, h]
+example : HostNamesOk { preEntries := [1, 5, 4], dirEntries := [1] } := by unfold HostNamesOk; decide
+example : "fd_readdir" ∈ modelled2 ∧ "sock_recv" ∈ modelled2 ∧ modelled2.length = 24 := by decide
+
+/-- descriptor table of the harness state `dir`: stdio, the pre-opened directory, a file, a directory -/
+def dirFds : Fds := (insertAt (insertAt (insertAt stdio Kind.pre 3).1 Kind.file 4).1 Kind.dir 5).1
+
+/-- non-vacuity of the dispatcher: fd_readdir of the sub-directory (".", "..", "g") into a 256-byte buffer writes
+76 bytes and bufused = 76; path_open has a successful alternative that hands out descriptor 6 (tests, samples) -/
+example : (call true true { preEntries := [1, 5, 4], dirEntries := [1] } dirFds zeroPage "fd_readdir" [5, 8192, 256, 0, 16384]).map
+      (fun rs => rs.map (fun r => (r.err, r.writes)))
+    = some [(Err.errno 0, [Wr.region 8192 76, Wr.bytes 16384 [76, 0, 0, 0]])] := by decide
+example : ((pathOpen dirFds zeroPage 3 2048 0 0 16384).map (fun r => (r.err, r.writes))) =
+    [(Err.errno 28, [])] := by decide   -- path_len = 0: EINVAL
 
 end Wz.C15
